@@ -10,6 +10,9 @@ def run(d):
     name = os.path.basename(d)
     meta = json.load(open(os.path.join(d, "meta.json")))
     prop = meta["property"]
+    if meta.get("neutralised"):
+        # a later fix: commit removed the defect this change relied on; its own demonstration passes on the patched tree
+        return name, prop, {"result": "NEUTRALISED", "signatures": []}
     tmp = tempfile.mkdtemp(prefix="seedrun-")
     try:
         subprocess.check_call("cp -r /repo/. %s/ && rm -rf %s/.git" % (tmp, tmp), shell=True)
@@ -18,15 +21,22 @@ def run(d):
             res = {"result": "PATCH-NO-LONGER-APPLIES", "detail": (r.stdout + r.stderr)[-300:]}
         else:
             env = dict(os.environ, VERIF_REPO=tmp, VERIF_SEED=os.environ.get("VERIF_SEED", "1"))
-            p = subprocess.run(["/venv/bin/python", "check.py", prop, "quick"], cwd=H, env=env, capture_output=True, text=True)
-            sigs = re.findall(r"^  signature: (.*)$", p.stdout, re.M)
-            res = {"result": "CAUGHT" if p.returncode == 1 else ("MISSED" if p.returncode == 0 else "HARNESS-ERROR"), "signatures": sorted(set(sigs))[:4]}
+            # the property's own check first; meta["also"] names checks of neighbouring properties whose statement the change
+            # breaks as well (tried only when the own check stays quiet)
+            for chk in [prop] + list(meta.get("also", [])):
+                p = subprocess.run(["/venv/bin/python", "check.py", chk, "quick"], cwd=H, env=env, capture_output=True, text=True)
+                sigs = re.findall(r"^  signature: (.*)$", p.stdout, re.M)
+                res = {"result": "CAUGHT" if p.returncode == 1 else ("MISSED" if p.returncode == 0 else "HARNESS-ERROR"), "signatures": sorted(set(sigs))[:4], "by": chk}
+                for f in glob.glob(os.path.join(H, "replays", chk, "new-*.json")):
+                    os.remove(f)
+                if res["result"] != "MISSED":
+                    break
     finally:
         shutil.rmtree(tmp, ignore_errors=True)
     for f in glob.glob(os.path.join(H, "replays", prop, "new-*.json")):
         os.remove(f)
     if res["result"] == "CAUGHT":
-        meta["detected_by"] = "check.py %s quick (VERIF_SEED=%s): %s" % (prop, os.environ.get("VERIF_SEED", "1"), "; ".join(res["signatures"]))
+        meta["detected_by"] = "check.py %s quick (VERIF_SEED=%s): %s" % (res.get("by", prop), os.environ.get("VERIF_SEED", "1"), "; ".join(res["signatures"]))
     elif res["result"] == "MISSED":
         meta["detected_by"] = "NOT detected by check.py %s quick (VERIF_SEED=%s)" % (prop, os.environ.get("VERIF_SEED", "1"))
     else:
